@@ -1065,6 +1065,8 @@ def _step_read(ctx, v, p, L):
     if k == 'field':
         while type(v) is Ref:
             v = v.load()
+        if v is None or (type(v) is Agg and v.ty == '()' and not v.fields):
+            return UNIT         # a zero-sized value is never materialised in MIR; neither are its (zero-sized) fields
         if type(v) is not Agg:
             raise Unsupported('field .%d of non-aggregate %r' % (p[1], v))
         try:
@@ -1554,11 +1556,42 @@ _STD_ENUMS = {
 }
 
 
+# variant order of third-party enums that ucg code constructs / matches (from the crates' public documentation)
+EXT_ENUMS = {
+    'serde_json::Value': ['Null', 'Bool', 'Number', 'String', 'Array', 'Object'],
+    'serde_yaml::Value': ['Null', 'Bool', 'Number', 'String', 'Sequence', 'Mapping', 'Tagged'],
+    'toml::Value': ['String', 'Integer', 'Float', 'Boolean', 'Datetime', 'Array', 'Table'],
+    'xml::common::XmlVersion': ['Version10', 'Version11'],
+    'XmlVersion': ['Version10', 'Version11'],
+    'std::io::ErrorKind': ['NotFound', 'PermissionDenied', 'ConnectionRefused', 'ConnectionReset', 'HostUnreachable', 'NetworkUnreachable', 'ConnectionAborted', 'NotConnected', 'AddrInUse',
+                           'AddrNotAvailable', 'NetworkDown', 'BrokenPipe', 'AlreadyExists', 'WouldBlock', 'NotADirectory', 'IsADirectory', 'DirectoryNotEmpty', 'ReadOnlyFilesystem',
+                           'FilesystemLoop', 'StaleNetworkFileHandle', 'InvalidInput', 'InvalidData', 'TimedOut', 'WriteZero', 'StorageFull', 'NotSeekable', 'QuotaExceeded', 'FileTooLarge',
+                           'ResourceBusy', 'ExecutableFileBusy', 'Deadlock', 'CrossesDevices', 'TooManyLinks', 'InvalidFilename', 'ArgumentListTooLong', 'Interrupted', 'Unsupported',
+                           'UnexpectedEof', 'OutOfMemory', 'InProgress', 'Other', 'Uncategorized'],
+}
+
+
+def _ext_enum(ty):
+    for k, vs in EXT_ENUMS.items():
+        if ty == k or ty.endswith('::' + k) or k.endswith('::' + ty) and '::' in ty:
+            return k, vs
+    return None
+
+
 def _agg_head(prog, head):
     """`path::Type::<G>::Variant` or `path::Type::<G>` -> (type name, variant index or None)"""
     h = strip_generics(head)
     segs = h.split('::')
     last = segs[-1]
+    if len(segs) >= 3 or (len(segs) == 2 and segs[0] in ('XmlVersion',)):
+        ee = _ext_enum('::'.join(segs[:-1]))
+        if ee and last in ee[1]:
+            return (ee[0], ee[1].index(last))
+    if len(segs) == 1 and not prog.sources._pick(prog.sources.structs, last) and last not in ('Some', 'None', 'Ok', 'Err'):
+        # rustc trims paths to the shortest unique spelling: a bare variant name of a third-party enum
+        owners = [(k, vs) for k, vs in EXT_ENUMS.items() if last in vs and '::' in k and not k.startswith('std::')]
+        if len(owners) == 1:
+            return (owners[0][0], owners[0][1].index(last))
     if len(segs) >= 2:
         tyname = segs[-2]
         ty = '::'.join(segs[:-1])
